@@ -414,9 +414,83 @@ async fn outcome(fut: diameter::transport::client::ResponseFuture, want_hop: u32
 
 /// overlap: request 1 in flight on connection A, connect() again (B), request 2 on B, A's peer closes, B's peer answers 2.
 /// failed:  request 1 answered on A, connect() again to a port nobody listens on any more (fails), A's peer closes, then one more send.
+/// tlsfail: a TLS client with a live connection calls connect() again; the TCP connect succeeds but the TLS handshake
+/// fails (the peer answers the ClientHello with garbage and hangs up).  The client stays on its first connection; when
+/// that one is lost as well, a further send must fail or hand out a future that fails.
+fn reconn_tls(dict: Arc<Dictionary>) -> PResult<String> {
+    let rt = rt();
+    let out = rt.block_on(async move {
+        let l = TcpListener::bind("127.0.0.1:0").await.map_err(|e| e.to_string())?;
+        let addr = l.local_addr().map_err(|e| e.to_string())?;
+        let acceptor = tokio_native_tls::TlsAcceptor::from(native_tls::TlsAcceptor::new(identity("match")?).map_err(|e| e.to_string())?);
+        let mut client = DiameterClient::new(&format!("localhost:{}", addr.port()), DiameterClientConfig { use_tls: true, verify_cert: false });
+        // first connection: a proper TLS session
+        let srv = tokio::spawn(async move {
+            let (s, _) = l.accept().await.map_err(|e| e.to_string())?;
+            let tls = acceptor.accept(s).await.map_err(|e| e.to_string())?;
+            Ok::<_, String>((tls, l))
+        });
+        let mut h1 = tokio::time::timeout(Duration::from_secs(5), client.connect()).await.map_err(|_| "first connect timed out".to_string())?.map_err(|e| format!("first connect failed: {:?}", e))?;
+        let (mut sa, l) = srv.await.map_err(|e| e.to_string())??;
+        let d1 = Arc::clone(&dict);
+        tokio::spawn(async move { DiameterClient::handle(&mut h1, d1).await; });
+        let fut1 = client.send_message(plain_request(&dict, 1)).await.map_err(|e| format!("send 1 failed: {:?}", e))?;
+        let mut hdr = [0u8; 4];
+        sa.read_exact(&mut hdr).await.map_err(|e| e.to_string())?;
+        let n = u32::from_be_bytes([0, hdr[1], hdr[2], hdr[3]]) as usize;
+        let mut body = vec![0u8; n - 4];
+        sa.read_exact(&mut body).await.map_err(|e| e.to_string())?;
+        sa.write_all(&plain_answer(&dict, 1)).await.map_err(|e| e.to_string())?;
+        let o1 = outcome(fut1, 1).await;
+        // second connect(): TCP is accepted, the handshake is answered with garbage
+        let bad = tokio::spawn(async move {
+            if let Ok((mut s, _)) = l.accept().await {
+                let mut b = [0u8; 64];
+                let _ = s.read(&mut b).await;
+                let _ = s.write_all(b"HTTP/1.0 400 Bad Request\r\n\r\n").await;
+            }
+        });
+        let rc = match tokio::time::timeout(Duration::from_secs(5), client.connect()).await {
+            Ok(Ok(_)) => "ok",
+            Ok(Err(_)) => "failed",
+            Err(_) => "timeout",
+        };
+        let _ = bad.await;
+        // the client is still on its first connection: a request on it is answered
+        let o2 = match tokio::time::timeout(Duration::from_secs(3), client.send_message(plain_request(&dict, 2))).await {
+            Ok(Ok(fut)) => {
+                let mut hdr = [0u8; 4];
+                let got = tokio::time::timeout(Duration::from_secs(3), sa.read_exact(&mut hdr)).await;
+                if matches!(got, Ok(Ok(_))) {
+                    let n = u32::from_be_bytes([0, hdr[1], hdr[2], hdr[3]]) as usize;
+                    let mut body = vec![0u8; n.saturating_sub(4)];
+                    let _ = sa.read_exact(&mut body).await;
+                    let _ = sa.write_all(&plain_answer(&dict, 2)).await;
+                }
+                outcome(fut, 2).await
+            }
+            Ok(Err(_)) => "senderr",
+            Err(_) => "sendpending",
+        };
+        drop(sa); // now the live connection is lost: its reader stops
+        tokio::time::sleep(Duration::from_millis(250)).await;
+        let o3 = match tokio::time::timeout(Duration::from_secs(3), client.send_message(plain_request(&dict, 3))).await {
+            Ok(Ok(fut)) => match outcome(fut, 3).await { "err" => "futerr", x => x },
+            Ok(Err(_)) => "senderr",
+            Err(_) => "sendpending",
+        };
+        Ok::<String, String>(format!("RECONN reconnect={} f1={} f2={} f3={}", rc, o1, o2, o3))
+    });
+    rt.shutdown_timeout(Duration::from_millis(200));
+    out
+}
+
 pub fn reconn(st: &State, t: &mut Toks) -> PResult<String> {
     let dict = st.dicts.get("b").ok_or_else(|| "dict b missing".to_string())?.clone();
     let variant = t.next()?.to_string();
+    if variant == "tlsfail" {
+        return reconn_tls(dict);
+    }
     let rt = rt();
     let out = rt.block_on(async move {
         let l = TcpListener::bind("127.0.0.1:0").await.map_err(|e| e.to_string())?;
@@ -431,6 +505,10 @@ pub fn reconn(st: &State, t: &mut Toks) -> PResult<String> {
             return Err("peer A did not receive request 1".into());
         }
         let mut out = String::from("RECONN");
+        if variant == "tlsfail" {
+            // (handled by reconn_tls below)
+            return Err("internal: tlsfail is dispatched separately".into());
+        }
         if variant == "overlap" {
             let mut h2 = client.connect().await.map_err(|e| format!("second connect failed: {:?}", e))?;
             let (mut sb, _) = l.accept().await.map_err(|e| e.to_string())?;
